@@ -1629,10 +1629,17 @@ impl UdpListenerSession {
             .flow_endpoints
             .remove(&flow)
             .unwrap_or((self.address, None));
-        // Drop the shadow flow-table entry if it still points at this flow.
-        let key = self.client_key(client);
-        if self.client_key_to_flow.get(&key) == Some(&flow) {
-            self.client_key_to_flow.remove(&key);
+        // Drop the shadow flow-table entry if it still points at this flow. The
+        // entry was keyed under the affinity mode in force when the flow was
+        // opened; a later `SetCluster` may have flipped `affinity_with_port`, so
+        // recomputing the key under the current mode alone would miss it. Try
+        // both key forms (mirrors `UdpManager::close_flow`).
+        let mut ip_only_key = client;
+        ip_only_key.set_port(0);
+        for key in [client, ip_only_key] {
+            if self.client_key_to_flow.get(&key) == Some(&flow) {
+                self.client_key_to_flow.remove(&key);
+            }
         }
         // The shadow flow-table must no longer map THIS flow id. A surviving
         // entry would misroute a later established-flow `SendToBackend` onto a
